@@ -17,7 +17,7 @@ type c08 struct{ base }
 
 func init() {
 	runner.Register(&c08{base{id: "C08", level: "fault_enumeration",
-		rule: "fault catalogue (every way a request can fail in this I/O-free library), each fault injected in >=3 different reachable states (seeded write histories on a table with 2 GSIs + 1 LSI, plus a second table) per adapter: unknown table; key attribute missing / of wrong type; index-key attribute of wrong type with the offending index first / middle / last in every map-iteration order (repeated); unused / undefined / malformed placeholders; syntax error and ill-typed operand in a condition (documented panic path) and in an update; failing k-th action of a multi-action update after k-1 successful ones; conditional check failed; reserved word; active emulated failure (both kinds) for every data op; batch rejected by validation; batch aborted by a failing sub-request after earlier sub-requests; UpdateTable whose later index change fails; writes to an item that predates an index whose key type its attribute does not have. Oracle: the request must fail AND the complete observation (GetItem of every key, base scan, every index scan, DescribeTable counts and index sets of every table) must be identical before/after, and the model (which skipped the call) must still agree after 5 further writes. non-trivial = the state holds >=2 items and the fault is detected after at least one internal step could have run; distinct by (adapter, fault id, op, state size class).",
+		rule: "fault catalogue (every way a request can fail in this I/O-free library), each fault injected in >=3 different reachable states (seeded write histories on a table with 2 GSIs + 1 LSI, plus a second table) per adapter: unknown table; key attribute missing / of wrong type; index-key attribute of wrong type with the offending index first / middle / last in every map-iteration order (repeated); unused / undefined / malformed placeholders; syntax error and ill-typed operand in a condition (documented panic path) and in an update; failing k-th action of a multi-action update after k-1 successful ones; conditional check failed; reserved word; active emulated failure (both kinds) for every data op; batch rejected by validation; batch aborted by a failing sub-request after earlier sub-requests; UpdateTable whose later index change fails; writes to an item that predates an index whose key type its attribute does not have. Oracle: the request must fail AND the complete observation (GetItem of every key, base scan, every index scan, DescribeTable counts and index sets of every table) must be identical before/after, and the model (which skipped the call) must still agree after 5 further writes. non-trivial = the state holds >=2 items and the fault is detected after at least one internal step could have run; distinct by (adapter, fault id, op, state size class). Read faults: Query / Scan on the table and through every index, both directions, with a filter that fails on the first item that has the attribute.",
 		assumptions: commonAssumptions}})
 }
 
